@@ -16,6 +16,9 @@ pub fn guarded<T>(f: impl FnOnce() -> T) -> Result<T, String> {
 
 /// Silences the default panic hook (panics are caught and reported as results).
 pub fn quiet_panics() {
+    if std::env::var_os("VERIF_LOUD").is_some() {
+        return;
+    }
     std::panic::set_hook(Box::new(|_| {}));
 }
 
